@@ -188,6 +188,7 @@ pub fn draw_fuel_for(c: &GenCase) -> u64 {
 /// body of the child process
 pub fn c09_child(ctx: &Ctx) -> i32 {
     let mut out = Outcome::new("");
+    let light = std::env::var("C09_LIGHT").map_or(false, |v| v == "1");
     // (1) exhaustive: every fuzzer byte string of length <= 2 x 6 protocols x 3 configurations
     let range = if ctx.thorough() { (60, 300) } else { (5, 20) };
     let mut items: Vec<(u8, u8, Vec<u8>)> = Vec::new();
@@ -201,6 +202,9 @@ pub fn c09_child(ctx: &Ctx) -> i32 {
                 items.push((p, w, vec![(x >> 8) as u8, x as u8]));
             }
         }
+    }
+    if light {
+        items.clear();
     }
     let n_enum = items.len();
     let (st, found) = run_enum(items, |(p, w, bytes), st| {
@@ -220,7 +224,8 @@ pub fn c09_child(ctx: &Ctx) -> i32 {
         let mut p = Profile::full();
         p.rate = RateMode::Wild;
         p.size = if ctx.thorough() { SizeMode::WithHuge(20000, 50000) } else { SizeMode::WithHuge(20000, 24000) };
-        let r = run_prop(ctx, 1, ctx.n(40_000, 2_000_000), || case::gencase(&p), |c: &GenCase, st: &mut Stats| check_c09(ctx, c, st));
+        let n = if light { ctx.n(12_000, 300_000) } else { ctx.n(40_000, 2_000_000) };
+        let r = run_prop(ctx, if light { 2 } else { 1 }, n, || case::gencase(&p), |c: &GenCase, st: &mut Stats| check_c09(ctx, c, st));
         out.absorb(r);
     }
     // (3) long exhausted inputs: every choice falls back to index 0 -> deepest nesting
@@ -321,9 +326,12 @@ fn wait_with_timeout(child: &mut std::process::Child, limit: Duration) -> Option
 
 /// run one case in its own process; Ok(None) = survived, Ok(Some(desc)) = the process died
 pub fn c09_one_in_child(ctx: &Ctx, case: &GenCase, limit: Duration) -> Result<Option<String>, String> {
+    c09_one_with(ctx, &util::self_exe(), case, limit)
+}
+
+pub fn c09_one_with(ctx: &Ctx, exe: &std::path::Path, case: &GenCase, limit: Duration) -> Result<Option<String>, String> {
     let path = format!("{}/work/c09-one-{}.json", ctx.verif_dir, std::process::id());
     std::fs::write(&path, serde_json::to_vec(case).unwrap()).map_err(|e| e.to_string())?;
-    let exe = util::self_exe();
     let mut ch = Command::new(exe).args(["c09-one", &path]).stdout(Stdio::null()).stderr(Stdio::null()).spawn().map_err(|e| e.to_string())?;
     let st = wait_with_timeout(&mut ch, limit);
     let _ = std::fs::remove_file(&path);
@@ -335,26 +343,13 @@ pub fn c09_one_in_child(ctx: &Ctx, case: &GenCase, limit: Duration) -> Result<Op
     }
 }
 
-pub fn run_c09(ctx: &Ctx) -> Outcome {
-    let mut out = Outcome::new(
-        "Everything the public API reaches, run in a child process on threads with the Rust default 2 MiB stack (the smallest stack any entry \
-         point of the tool uses: rayon batch workers): (1) exhaustively every fuzzer byte string of length <= 2 (65 793) x 6 protocols x 3 \
-         configurations (default; all 7 mutators unsafe at rate 1.0; EXT+buffer with safe mutators), opcode range (5,20) quick / (60,300) \
-         thorough; (2) generated GenCases incl. unsafe, rates NaN / +-inf / out of range through builder and public field, ranges (0,0), \
-         min>max, reuse histories, alternative API entry points, up to 24 000 (quick) / 50 000 (thorough) opcodes; (3) long exhausted \
-         inputs (1000..20 500 quick / ..50 000 thorough opcodes from empty / constant bytes: every choice falls back to index 0, deepest \
-         nesting). Oracle: Ok(non-empty); no panic (catch_unwind), no abort / stack overflow (child exit status; the killing case is \
-         identified from a per-thread breadcrumb and confirmed alone in a fresh process); runaway budgets never exhausted: emissions <= \
-         100*max(min,max)+10^4 and entropy draws <= 10^5 per opcode + 10^6 (far above any legitimate generation; they turn loops that \
-         keep emitting or keep drawing into deterministic failures). Non-trivial = degenerate configuration (unsafe, rate outside [0,1], \
-         min >= max, fewer than 64 entropy bytes, or >= 5000 opcodes).",
-    );
-    let exe = util::self_exe();
-    let mut child = match Command::new(exe).args(["c09-child", &ctx.tier]).env("VERIF_SEED", ctx.seed.to_string()).env("VERIF_DIR", &ctx.verif_dir).stdout(Stdio::null()).spawn() {
+/// run the C09 child (`pfverif c09-child`) from the given binary, watch it, fold its result into `out`
+fn run_c09_child(ctx: &Ctx, out: &mut Outcome, exe: &std::path::Path, light: bool, tag: &str) {
+    let mut child = match Command::new(exe).args(["c09-child", &ctx.tier]).env("VERIF_SEED", ctx.seed.to_string()).env("C09_LIGHT", if light { "1" } else { "0" }).env("VERIF_DIR", &ctx.verif_dir).stdout(Stdio::null()).spawn() {
         Ok(c) => c,
         Err(e) => {
             out.inconclusive = Some(format!("cannot spawn child: {}", e));
-            return out;
+            return;
         }
     };
     let pid = child.id();
@@ -376,7 +371,7 @@ pub fn run_c09(ctx: &Ctx) -> Outcome {
             for f in cur {
                 let _ = std::fs::remove_file(f);
             }
-            return out;
+            return;
         }
     };
     let cur_files: Vec<String> = std::fs::read_dir(format!("{}/work", ctx.verif_dir))
@@ -393,7 +388,7 @@ pub fn run_c09(ctx: &Ctx) -> Outcome {
         None => {
             out.inconclusive = Some("watchdog: the child did not finish within its time limit (a silent spin cannot be told from slowness)".into());
             cleanup(&cur_files);
-            return out;
+            return;
         }
         Some(s) if s.success() => {}
         Some(s) => {
@@ -402,7 +397,7 @@ pub fn run_c09(ctx: &Ctx) -> Outcome {
             for f in &cur_files {
                 let Ok(txt) = std::fs::read(f) else { continue };
                 let Ok(c) = serde_json::from_slice::<GenCase>(&txt) else { continue };
-                if let Ok(Some(desc)) = c09_one_in_child(ctx, &c, Duration::from_secs(600)) {
+                if let Ok(Some(desc)) = c09_one_with(ctx, exe, &c, Duration::from_secs(600)) {
                     culprit = Some((c, desc));
                     break;
                 }
@@ -411,12 +406,12 @@ pub fn run_c09(ctx: &Ctx) -> Outcome {
             match culprit {
                 Some((c, desc)) => {
                     out.stats.evaluations += 1;
-                    let f = Fail::new("process-death", format!("generation killed the process ({}) for {}", desc, c.brief()));
+                    let f = Fail::new("process-death", format!("{}generation killed the process ({}) for {}", tag, desc, c.brief()));
                     out.violation = Some(Violation { fail: f, case: serde_json::to_value(&c).unwrap() });
                 }
                 None => out.inconclusive = Some(format!("the child died ({}) but no single case reproduces it", s)),
             }
-            return out;
+            return;
         }
     }
     let res: Value = match std::fs::read(&result_path).ok().and_then(|b| serde_json::from_slice(&b).ok()) {
@@ -424,14 +419,14 @@ pub fn run_c09(ctx: &Ctx) -> Outcome {
         None => {
             out.inconclusive = Some("child produced no result file".into());
             cleanup(&cur_files);
-            return out;
+            return;
         }
     };
     cleanup(&cur_files);
-    out.stats.evaluations = res["evaluations"].as_u64().unwrap_or(0);
+    out.stats.evaluations += res["evaluations"].as_u64().unwrap_or(0);
     if let Some(m) = res["labels"].as_object() {
         for (k, v) in m {
-            out.stats.add(k, v.as_u64().unwrap_or(0));
+            out.stats.add(&format!("{}{}", tag, k), v.as_u64().unwrap_or(0));
         }
     }
     if let Some(a) = res["nontrivial"].as_array() {
@@ -442,7 +437,11 @@ pub fn run_c09(ctx: &Ctx) -> Outcome {
         }
     }
     if let Some(a) = res["samples"].as_array() {
-        out.stats.samples = a.clone();
+        for x in a {
+            if out.stats.samples.len() < crate::runner::MAX_SAMPLES {
+                out.stats.samples.push(x.clone());
+            }
+        }
     }
     if let Some(m) = res["excluded_known"].as_object() {
         for (k, v) in m {
@@ -451,9 +450,34 @@ pub fn run_c09(ctx: &Ctx) -> Outcome {
     }
     if let Some(v) = res.get("violation").filter(|v| !v.is_null()) {
         out.violation = Some(Violation {
-            fail: Fail::new(v["sig"].as_str().unwrap_or("?"), v["msg"].as_str().unwrap_or("?")),
+            fail: Fail::new(v["sig"].as_str().unwrap_or("?"), format!("{}{}", tag, v["msg"].as_str().unwrap_or("?"))),
             case: v["case"].clone(),
         });
+    }
+}
+
+pub fn run_c09(ctx: &Ctx) -> Outcome {
+    let mut out = Outcome::new(
+        "Everything the public API reaches, run in a child process on threads with the Rust default 2 MiB stack (the smallest stack any entry \
+         point of the tool uses: rayon batch workers): (1) exhaustively every fuzzer byte string of length <= 2 (65 793) x 6 protocols x 3 \
+         configurations (default; all 7 mutators unsafe at rate 1.0; EXT+buffer with safe mutators), opcode range (5,20) quick / (60,300) \
+         thorough; (2) generated GenCases incl. unsafe, rates NaN / +-inf / out of range through builder and public field, ranges (0,0), \
+         min>max, reuse histories, alternative API entry points, up to 24 000 (quick) / 50 000 (thorough) opcodes; (3) long exhausted \
+         inputs (1000..20 500 quick / ..50 000 thorough opcodes from empty / constant bytes: every choice falls back to index 0, deepest \
+         nesting). Oracle: Ok(non-empty); no panic (catch_unwind), no abort / stack overflow (child exit status; the killing case is \
+         identified from a per-thread breadcrumb and confirmed alone in a fresh process); runaway budgets never exhausted: emissions <= \
+         100*max(min,max)+10^4 and entropy draws <= 10^5 per opcode + 10^6 (far above any legitimate generation; they turn loops that \
+         keep emitting or keep drawing into deterministic failures). Non-trivial = degenerate configuration (unsafe, rate outside [0,1], \
+         min >= max, fewer than 64 entropy bytes, or >= 5000 opcodes).",
+    );
+    run_c09_child(ctx, &mut out, &util::self_exe(), false, "");
+    // the same generated configurations (without the exhaustive part) in a build WITHOUT debug assertions and
+    // overflow checks: arithmetic that wraps instead of panicking must not turn into a runaway or a crash
+    if !out.failed() && out.inconclusive.is_none() {
+        match crate::props::outputs::build_plain_harness(ctx) {
+            Err(e) => out.inconclusive = Some(e),
+            Ok(plain) => run_c09_child(ctx, &mut out, std::path::Path::new(&plain), true, "[build without debug assertions] "),
+        }
     }
     dev_profile_probe(ctx, &mut out);
     out.assumptions = vec![
